@@ -115,7 +115,8 @@ def cond_info(row, status_from=("get", "upd")):
             t = c[1]
             if t[0] == "call" and sym.strip_all_generics(t[1]).split("::")[-1] in ("get", "get_mut") and c[3]:
                 info["present"] = c[2] == "Some"
-                if sym.strip_all_generics(t[1]).split("::")[-1] == "get_mut" and info["entry"] is None:
+                if sym.strip_all_generics(t[1]).split("::")[-1] in ("get_mut", "get") and info["entry"] is None and "BTreeMap" in t[1] or (
+                        sym.strip_all_generics(t[1]).split("::")[-1] == "get_mut" and info["entry"] is None):
                     # `match map.get_mut(&k) { Some(v) => .., None => { map.insert(k, ..) } }` is the entry API spelled out
                     info["entry"] = "Occupied" if c[2] == "Some" else "Vacant"
             elif t[0] == "call" and sym.strip_all_generics(t[1]).endswith("::entry") and c[3]:
